@@ -52,6 +52,7 @@ HIST_RULES = {
 
 
 STORE_PROPS = ("C01", "C02", "C03", "C06")
+CONC_PROPS = ("C02", "C03", "C07", "C08", "C17")
 
 
 class HistSpec(Spec):
@@ -76,6 +77,10 @@ class HistSpec(Spec):
         from .engines import hist
 
         world.install_seams()
+        if prop in CONC_PROPS and seed % 3 == 1:
+            from .engines import conc
+
+            return conc.ConcRun(prop, conc.make_config(prop, seed, tier), tag=tag).run()
         if prop == "C09" and seed % 5 == 0:
             from .engines import sched
 
@@ -96,6 +101,10 @@ class HistSpec(Spec):
             from .engines import store
 
             return store.StoreRun(doc["prop"], doc["cfg"], ops=doc["ops"], tag=tag).run()
+        if doc.get("engine") == "conc":
+            from .engines import conc
+
+            return conc.ConcRun(doc["prop"], doc["cfg"], plan=doc["plan"], tag=tag).run()
         if doc.get("engine") == "sched":
             from .engines import sched
 
@@ -104,7 +113,7 @@ class HistSpec(Spec):
 
     # -- aggregation ---------------------------------------------------------
     def nontrivial_keys(self, res):
-        if res.get("engine") == "sched":
+        if res.get("engine") in ("sched", "conc"):
             return []
         nt = res.get("nontrivial") or {}
         p = self.prop
@@ -134,7 +143,7 @@ class HistSpec(Spec):
         return [ops_digest(res.get("ops", []))] if ok else []
 
     def sample(self, res):
-        if res.get("engine") in ("store", "sched"):
+        if res.get("engine") in ("store", "sched", "conc"):
             return None
         ops = res.get("ops", [])
         short = []
@@ -154,6 +163,12 @@ class HistSpec(Spec):
         if res.get("engine") == "sched":
             agg.add_stats({"overlapping_request_schedules": res.get("schedules", 0)})
             return
+        if res.get("engine") == "conc":
+            agg.add_stats({"overlapping_http_request_runs": 1, "overlapping_http_interleavings": len(res.get("signatures", []))})
+            if res.get("samples") and not agg.extra.get("conc_sample"):
+                agg.extra["conc_sample"] = True
+                agg.samples.append({"overlapping_http_requests": res["samples"][0]})
+            return
         if res.get("engine") == "store":
             agg.add_stats({"store_api_runs": 1, "store_api.backend." + str(c.get("backend")): 1})
             if len(agg.samples) < 4 and res.get("samples") and not agg.extra.get("store_sample"):
@@ -171,6 +186,10 @@ class HistSpec(Spec):
 
     # -- replay / minimisation --------------------------------------------------
     def replay_doc(self, prop, v, res):
+        if res.get("engine") == "conc":
+            plan = dict(res["plan"], variants=[v["variant"]]) if v.get("variant") else res["plan"]
+            return {"engine": "conc", "prop": prop, "seed": v.get("seed"), "cfg": res["cfg"], "plan": plan, "expect": {"oracle": v["oracle"], "sig": v["sig"]},
+                    "detail": v.get("detail"), "digest": None, "minimised": False}
         if res.get("engine") == "sched":
             plan = res["plan"]
             if v.get("schedule") is not None:
@@ -190,7 +209,7 @@ class HistSpec(Spec):
         }
 
     def minimise(self, prop, v, res, farm):
-        if res.get("engine") == "sched":
+        if res.get("engine") in ("sched", "conc"):
             return self.replay_doc(prop, v, res)
         want = (v["oracle"], json.dumps(v["sig"], sort_keys=True))
         cfg = dict(res["cfg"])
